@@ -95,9 +95,11 @@ ObsRead(req, got, dBefore, dAfter) ==
 (***************************************************************************)
 \* YAML input that holds no document (empty, or only comments): given as a slice, serde_yaml
 \* yields one "void" document and xt returns an error; given as a reader xt yields nothing.
-Dev_YamlSliceVoidDocument(c) ==
-  /\ "yaml_void" \in Devs /\ c.class = "yaml_void" /\ c.mode = "slice" /\ c.from = "yaml"
-  /\ PrintT(<<"DEVIATION", "yaml_void", c.mode>>)
+VoidDocumentCase(c) == "yaml_void" \in Devs /\ c.class = "yaml_void" /\ c.mode = "slice" /\ c.from = "yaml"
+Dev_YamlSliceVoidDocument(c) == VoidDocumentCase(c) /\ PrintT(<<"DEVIATION", "yaml_void", c.mode>>)
+\* documents a call presents to the target: under the deviation the void document IS one (a null), so a
+\* TOML target counts it - and refuses whatever comes after it in the same history
+Presented(c) == IF ~c.known THEN 1 ELSE IF VoidDocumentCase(c) THEN c.ndocs + 1 ELSE c.ndocs
 
 (***************************************************************************)
 (* The writer is offered len bytes and accepts acc (or fails, acc = -1).   *)
@@ -172,7 +174,7 @@ End(res, key, digest, cmp, readMsg, fEnd, recOk) ==   \* fEnd: whole frames acce
           /\ UNCHANGED verdict
      ELSE /\ verdict' = (key :> [res |-> res, digest |-> digest]) @@ verdict
   /\ status' = "idle"
-  /\ docsSeen' = IF to = "toml" THEN Min(2, docsSeen + IF call.known THEN call.ndocs ELSE 1) ELSE docsSeen
+  /\ docsSeen' = IF to = "toml" THEN Min(2, docsSeen + Presented(call)) ELSE docsSeen
   /\ written' = IF call.known THEN fEnd ELSE written
   /\ UNCHANGED <<to, call, delivered, base, partial, over, rHit, wHit>>
 =============================================================================
